@@ -6,6 +6,7 @@ call or one block connect / disconnect notification handled by netsync.
 -/
 import BV.C10.Rbf
 import BV.C10.ComposeUtxo
+import BV.C10.ComposeTemplate
 import BV.Generated.C10
 namespace BV.C10
 open Spec Lemmas
@@ -312,6 +313,54 @@ theorem chain_view_is_c03_utxoOf (maturity mtp0 : Nat) (bs : List Block)
     (hcb : ∀ b ∈ bs, ∀ T ∈ b.txs, ∀ x ∈ T.ins, x.txid ≠ b.cb.id) :
     Represents (connectAll (State.init maturity mtp0).chain bs).utxo (C03.Spec.utxoOf (bs.map toC03Block)) :=
   connectAll_represents bs _ _ represents_empty hcb
+
+/-! ### composition with C12 (block templates built from the pool) -/
+
+/-- Minable for selections: after any history, if all pooled entries are fresh, not only the whole pool but
+EVERY selection from it that contains the pooled parents its members need, listed in ascending id
+(dependency) order, is a valid block body on the chain view — what a template generator picks -/
+theorem minable_selection_always (W : TxAbs → Prop) (U : Universe W) (pol : Policy) (maturity mtp0 : Nat)
+    (ops : List Op) (h : RunOkM W pol (State.init maturity mtp0) ops) (l : List TxAbs) :
+    let st := (run pol (State.init maturity mtp0) ops).1
+    (∀ e ∈ st.pool.pool, e.fresh = true) → ParentClosed st.chain st.pool l →
+    l.Pairwise (fun a b => a.id < b.id) → ValidSeq st.chain [] l := by
+  intro st hfresh hcl hs
+  have g := run_goodSt U pol ops _ (goodSt_init W maturity mtp0) (runOk_of_runOkM pol ops _ h)
+  have fl := run_fl pol ops _ (fl_init maturity mtp0) h
+  apply validSeq_selection g.good.ok.nds (g.good.ranked U) (inputsAvailable_of_good g.good) _ l [] (by simpa using hcl)
+    hs (fun a ha => by cases ha)
+  intro t ht
+  obtain ⟨e, he, rfl⟩ := mem_txs.1 ht
+  exact fl e he (hfresh e he)
+
+/-- the finality test of C12's template model (`isFinalized`, used by `blockValid`) on a pooled transaction is
+the mempool model's -/
+theorem template_finality_is_ours (c : Chain) (t : TxAbs) (h m : Nat) :
+    C12.isFinalized (toC12Tx c t) (h : Int) (m : Int) = isFinal t h m := c12_isFinalized_eq c t h m
+
+/-- the BIP68 test of C12's `blockValid` (`C12.Spec.seqLocksOk`) on a pooled transaction, in the environment
+of the next block, is the mempool model's admission test (which is C13's definition) -/
+theorem template_sequence_locks_are_ours (c : Chain) (t : TxAbs) :
+    C12.Spec.seqLocksOk (toC12Env c) (toC12Tx c t) = seqLocksOk c t := c12_seqLocksOk_eq c t
+
+/-- end to end C10 → C12: after any history with all entries fresh, every pooled transaction passes the
+finality and BIP68 clauses of C12's `blockValid` for the next block (CSV clock = median time past) -/
+theorem pooled_pass_template_locks (W : TxAbs → Prop) (pol : Policy) (maturity mtp0 : Nat)
+    (ops : List Op) (h : RunOkM W pol (State.init maturity mtp0) ops) :
+    let st := (run pol (State.init maturity mtp0) ops).1
+    (∀ e ∈ st.pool.pool, e.fresh = true) → ∀ t ∈ st.pool.txs,
+      C12.isFinalized (toC12Tx st.chain t) (toC12Env st.chain).nextHeight (C12.consensusClock (toC12Env st.chain)) = true ∧
+      C12.Spec.seqLocksOk (toC12Env st.chain) (toC12Tx st.chain t) = true := by
+  intro st hfresh t ht
+  have fl := run_fl pol ops _ (fl_init maturity mtp0) h
+  obtain ⟨e, he, rfl⟩ := mem_txs.1 ht
+  obtain ⟨_, _, _, _, _, l6, l7, _⟩ := fl e he (hfresh e he)
+  constructor
+  · have e1 : (toC12Env st.chain).nextHeight = ((st.chain.height + 1 : Nat) : Int) := by simp [toC12Env]
+    have e2 : C12.consensusClock (toC12Env st.chain) = (st.chain.mtp : Int) := by
+      simp [C12.consensusClock, toC12Env]
+    rw [e1, e2, c12_isFinalized_eq]; exact l7
+  · rw [c12_seqLocksOk_eq]; exact l6
 
 /-! ### policy arithmetic -/
 
